@@ -160,7 +160,12 @@ def gen_cases(spec):
         srcs = ["DEFINE ping AS ping END DEFINE\nping", "DEFINE grow AS x := 1 ; grow END DEFINE\ngrow",
                 "DEFINE aa AS bb END DEFINE\nDEFINE bb AS aa END DEFINE\nx := 1 ; aa",
                 "DEFINE PRIO 2 <ID> ! AS $0 ! ! END DEFINE\nx !", "DEFINE <ID> ? <ID> AS $1 ? $0 END DEFINE\na ? b"]
-        for s in r.sample(srcs, 3):
+        # the budget runs out right after a substitution that produced no token (macros with an empty body)
+        empt = ["DEFINE SKIP AS END DEFINE\nx := 1 " + "SKIP " * r.randint(1025, 1200),
+                 "DEFINE SKIP ; AS END DEFINE\n" + "SKIP ; " * r.randint(1025, 1100) + "x := 1",
+                 "DEFINE PRIO 9 SKIP AS END DEFINE\nDEFINE ping AS SKIP ping END DEFINE\nx := 1 ping",
+                 "DEFINE PRIO 9 SKIP AS END DEFINE\nDEFINE ping AS ping SKIP END DEFINE\nping"]
+        for s in r.sample(srcs, 3) + r.sample(empt[:2], 1) + r.sample(empt[2:], 1):
             out.append(({"main": s}, "main"))
         # the KF1 witnesses (abandoned through the hook)
         if spec["chunk"] == 0:
